@@ -119,7 +119,9 @@ pub fn run(ctx: &Ctx) -> i32 {
         }
         let boundaries: Vec<usize> = text.char_indices().map(|(i, _)| i).chain([text.len()]).collect();
         for b in boundaries {
-            for ins in ["é", "𝄞"] {
+            // é: 2 bytes; 𝄞: 4 bytes; € 3 bytes; K (U+212A) and İ (U+0130): characters whose lower-case form has
+            // another byte length (3 -> 1, 2 -> 3), so a lower-cased copy of the source shifts
+            for ins in ["é", "𝄞", "€", "\u{212A}", "\u{0130}"] {
                 let mut t = text.clone();
                 t.insert_str(b, ins);
                 mutated.push((t, stack));
@@ -260,7 +262,7 @@ pub fn run(ctx: &Ctx) -> i32 {
         ctx,
         all,
         Level { category: "model_checking", bfs: None },
-        "bounded-exhaustive enumeration of texts: T1 every token sequence up to the tier's length over a 32-token alphabet (one token of every lexical kind incl. each directive, malformed literals, multi-byte characters) joined by space and by newline, under both feature flags; T2 every string up to the tier's length over 36 characters the lexer distinguishes; T3 every single-token deletion/duplication/swap/replacement (by each alphabet token) of 10 seed programs and a 2-byte / 4-byte character inserted at every character boundary; T4 size extremes; T5 `.blkw xFFFF` / `.blkw #-1` / `.stringz` lines repeated up to 3000 / 20000 times through `lace check` under a 2 GiB address-space limit (no allocation abort). Oracle: assembling returns (60 s watchdog) without panic, and a diagnostic renders and every labelled span lies inside the source (offset+len <= length). distinct_nontrivial = distinct texts that ended in a diagnostic",
+        "bounded-exhaustive enumeration of texts: T1 every token sequence up to the tier's length over a 32-token alphabet (one token of every lexical kind incl. each directive, malformed literals, multi-byte characters) joined by space and by newline, under both feature flags; T2 every string up to the tier's length over 36 characters the lexer distinguishes; T3 every single-token deletion/duplication/swap/replacement (by each alphabet token) of 10 seed programs and a 2-, 3- and 4-byte character and two characters whose lower-case form changes byte length (U+212A, U+0130) inserted at every character boundary; T4 size extremes; T5 `.blkw xFFFF` / `.blkw #-1` / `.stringz` lines repeated up to 3000 / 20000 times through `lace check` under a 2 GiB address-space limit (no allocation abort). Oracle: assembling returns (60 s watchdog) without panic, and a diagnostic renders and every labelled span lies inside the source (offset+len <= length). distinct_nontrivial = distinct texts that ended in a diagnostic",
         true,
         &["some-image", "some-diagnostic"],
         &["profile: optimised with debug assertions and overflow checks, so arithmetic overflow panics as in `cargo test`"],
